@@ -1,9 +1,16 @@
 fn main() {
     let args: Vec<String> = std::env::args().collect();
-    for f in &args[1..] {
+    for f in &args[2..] {
         let src = std::fs::read_to_string(f).unwrap();
         match gomini::parse::parse_file(&src) {
-            Ok(file) => println!("{}: ok decls={} nodes={}", f, file.decls.len(), file.node_count),
+            Ok(file) => {
+                let (rep, _info) = gomini::vet::check(&file);
+                if rep.ok() { println!("{}: ok", f); } else {
+                    println!("{}: errors={} unsupported={}", f, rep.errors.len(), rep.unsupported.len());
+                    for e in rep.errors.iter().take(5) { println!("   [{}] line {}: {}", e.kind, e.line, e.msg); }
+                    for u in rep.unsupported.iter().take(5) { println!("   unsupported: {}", u); }
+                }
+            }
             Err(e) => println!("{}: ERR {}", f, e),
         }
     }
